@@ -177,3 +177,44 @@ Proof.
   intros pw H. destruct (kw_ok c_isalpha c_isdigit c_lower c_kbs kb_false_positive_words c_min_run year_prefixes
                         context_strings side_min_run (length pw) pw (Nat.le_refl _) H) as (sl & f & H1 & H2 & H3 & _). eauto.
 Qed.
+
+(* ---- maximality of digit runs and the justification of word splits, at
+   the level of one detector call on one unlabelled section *)
+
+Theorem digit_run_maximal : forall s p f, detect_digits c_isdigit s = DYes p f ->
+  exists l1 l2 l3, s = l1 ++ l2 ++ l3 /\ forallb (fun c => negb (c_isdigit c)) l1 = true /\
+    forallb c_isdigit l2 = true /\ l2 <> [] /\ stops c_isdigit l3 /\
+    p = osec l1 ++ [(l2, Some (LD (len l2)))] ++ osec l3 /\ f = l2.
+Proof. exact (detect_digits_spec c_isdigit). Qed.
+
+Theorem digit_none_left : forall s, detect_digits c_isdigit s = DNo -> forallb (fun c => negb (c_isdigit c)) s = true.
+Proof. exact (detect_digits_none c_isdigit). Qed.
+
+Theorem alpha_run_split : forall m s p f,
+  detect_alpha c_isalpha c_isupper c_lower true (mwparse_c m) s = DYes p f ->
+  exists l1 l2 l3 pieces b, s = l1 ++ l2 ++ l3 /\ l2 <> [] /\
+    forallb (fun c => negb (c_isalpha c)) (map (lower1 c_lower) l1) = true /\
+    forallb c_isalpha (map (lower1 c_lower) l2) = true /\
+    stops c_isalpha (map (lower1 c_lower) l3) /\
+    mwparse_c m (map (lower1 c_lower) l2) = Some (b, map (map (lower1 c_lower)) pieces) /\
+    concat pieces = l2 /\ pieces <> [] /\
+    p = osec l1 ++ map (fun pc => (pc, Some (LA (len pc)))) pieces ++ osec l3 /\
+    f = (map (map (lower1 c_lower)) pieces, map (case_mask c_isupper) pieces).
+Proof.
+  intros m s p f. apply detect_alpha_spec.
+  - intros x b ws. apply (mw_parse_concat c_lower c_threshold c_min_len c_max_len side_min_len).
+  - apply (good_lowne c_isalpha c_isdigit). apply good_all.
+Qed.
+
+(* a character is never both a letter and a digit (pool table, default class) *)
+Definition check_class (ki : positive * cinfo) : bool := negb (ci_alpha (snd ki) && ci_digit (snd ki)).
+Lemma unicode_classes_disjoint : forallb check_class (PositiveMap.elements unicode_table) = true.
+Proof. vm_compute. reflexivity. Qed.
+Theorem alpha_not_digit : forall c, c_isalpha c = true -> c_isdigit c = false.
+Proof.
+  intros c. unfold c_isalpha, c_isdigit, uni_alpha, uni_digit.
+  destruct (PositiveMap.find (ukey c) unicode_table) as [i|] eqn:E; [|discriminate].
+  apply PositiveMap.elements_correct in E.
+  pose proof (proj1 (forallb_forall _ _) unicode_classes_disjoint _ E) as Hk. unfold check_class in Hk. cbn [snd] in Hk.
+  intros Ha. rewrite Ha in Hk. simpl in Hk. now apply negb_true_iff in Hk.
+Qed.
